@@ -243,8 +243,8 @@ func main() {
 			}
 			if code == 2 || sums[w] == nil {
 				tail := stderr.String()
-				if len(tail) > 6000 {
-					tail = tail[len(tail)-6000:]
+				if len(tail) > 8000 {
+					tail = tail[:4000] + "\n...[stderr cut]...\n" + tail[len(tail)-4000:]
 				}
 				errs[w] = fmt.Sprintf("worker %d exit %d: %s", w, code, tail)
 			}
@@ -294,7 +294,10 @@ func main() {
 	if len(total.Samples) > 3 {
 		total.Samples = total.Samples[:3]
 	}
-	if total.DetMismatch > 0 {
+	// Workers abort (exit 2) on systematic nondeterminism themselves; isolated
+	// transient mismatches (arbitrated by a third execution) are reported in
+	// the evidence file.
+	if total.DetMismatch > 3 {
 		fatal("nondeterministic batch: %d mismatches", total.DetMismatch)
 	}
 
